@@ -7,7 +7,8 @@
 (* here (edges of each type); the driver concretises them from edge lists.   *)
 EXTENDS FsBase
 
-AllDevs == {"C01.number_scale0_as_decimal", "C01.binary_text_is_not_hex", "C01.bytes_parameter_rejected", "C01.qmark_38_digit_int_rejected"}
+AllDevs == {"C01.number_scale0_as_decimal", "C01.binary_text_is_not_hex", "C01.bytes_parameter_rejected", "C01.qmark_38_digit_int_rejected",
+            "C01.dollar_word_in_text_literal"}
 
 Types == {"boolean", "number38", "number102", "int", "float", "varchar", "date", "time", "ts_ntz", "ts_tz", "binary", "variant", "object", "array"}
 PyClass(ty) == CASE ty = "boolean" -> "bool" [] ty \in {"number38", "int"} -> "int" [] ty = "number102" -> "Decimal" [] ty = "float" -> "float"
@@ -20,13 +21,14 @@ ClassesOf(ty) ==
     [] ty = "number102" -> {"zero", "max_full_scale", "min_full_scale", "smallest_step"}
     [] ty = "int" -> {"zero", "int64max", "int64min", "neg"}
     [] ty = "float" -> {"zero", "maxfloat", "denormal", "negative", "fraction"}
-    [] ty = "varchar" -> {"empty", "plain", "unicode", "quote", "newline", "long"}
+    [] ty = "varchar" -> {"empty", "plain", "unicode", "quote", "newline", "long", "dollar", "percent"}
     [] ty = "date" -> {"epoch", "pre1970", "min", "max", "leapday"}
     [] ty = "time" -> {"midnight", "usec", "last"}
     [] ty \in {"ts_ntz", "ts_tz"} -> {"epoch", "pre1970_usec", "usec", "far"}
     [] ty = "binary" -> {"empty", "ascii", "nulbyte", "highbytes"}
     [] ty \in {"variant", "object", "array"} -> {"flat", "nested", "unicode"}
-Paths == {"literal", "pyformat", "qmark", "insert_select", "ctas", "clone", "write_pandas"}
+\* write_pandas_chunked: write_pandas with an explicit chunk_size that does not divide (or exceeds) the number of rows
+Paths == {"literal", "pyformat", "qmark", "insert_select", "ctas", "clone", "write_pandas", "write_pandas_chunked"}
 
 InitSt == [x |-> 0]
 \*  res    : "ok" | "err"
@@ -45,6 +47,10 @@ Expected(op, D) ==
   \* as built the engine's client converts a Python int beyond 64 bits through a double: 38-digit values cannot be bound natively
   \cup (IF "C01.qmark_38_digit_int_rejected" \in D /\ op.ty = "number38" /\ op.path = "qmark" /\ op.vc \in {"max38", "min38"} /\ op.nulls # "all"
         THEN {Obs("err", FALSE, "none", "ok")} ELSE {})
+  \* as built text of the form $word inside a string literal of the statement is taken for a session variable reference
+  \* (the same defect as C15.ref_in_string_literal): rejected when the variable does not exist, rewritten when it does
+  \cup (IF "C01.dollar_word_in_text_literal" \in D /\ op.ty = "varchar" /\ op.vc = "dollar" /\ op.path = "literal" /\ op.nulls # "all"
+        THEN {Obs("err", FALSE, "none", "ok"), Obs("ok", FALSE, "str", "ok")} ELSE {})
 Steps(st, op, D) == {R(st, o) : o \in Expected(op, D)}
 
 CONSTANTS TypesUsed
